@@ -314,6 +314,43 @@ class Gen:
                                                    "tys": [T("string")], "fields": [], "rename_all": None})
         d["variants"] = out
 
+    def option_family(self, d, vnames):
+        """untagged enum with ONE newtype variant over Option<T> (schemars: `type: [T, "null"]`, the only variant JSON
+        null belongs to) next to variants of other JSON kinds, in random declaration order: typify must see
+        `[T, null]` as exclusive with every single type other than T (util.rs schemas_mutually_exclusive, the
+        single-vs-list arm) -- integer and number count as different there, and the origin's serde reads an integer
+        with the first of the two variants that accepts it."""
+        r = self.r
+        ints = [T("int", n=x) for x in INTS]
+        pool = {
+            "boolean": lambda: T("bool"),
+            "integer": lambda: r.choice(ints),
+            "number": lambda: T("float", n=r.choice(["f64", "f64", "f32"])),
+            "string": lambda: T("string"),
+            "array": lambda: T("vec", t=r.choice([T("string"), r.choice(ints), T("bool")])),
+            "object": lambda: T(r.choice(["hashmap", "btreemap"]), t=r.choice([T("string"), r.choice(ints)])),
+        }
+        ok = r.choice(list(pool))
+        names = list(vnames) + [x for x in VARIANT_NAMES if x not in vnames]
+        out = [{"name": names[0], "rename": None, "kind": "newtype", "tys": [T("option", t=pool[ok]())], "fields": [],
+                "rename_all": None}]
+        others = [k for k in pool if k != ok]
+        r.shuffle(others)
+        twin = {"number": "integer", "integer": "number"}.get(ok)
+        if twin and r.random() < 0.7:       # integer next to a nullable float (and the converse)
+            others.remove(twin)
+            others.insert(0, twin)
+        for i, k in enumerate(others[:r.randint(1, 3)]):
+            v = {"name": names[i + 1], "rename": None, "kind": "newtype", "tys": [pool[k]()], "fields": [], "rename_all": None}
+            if k == "array" and r.random() < 0.4:
+                v.update({"kind": "tuple", "tys": [T("string"), r.choice(ints)]})
+            if k == "object" and r.random() < 0.5:
+                v.update({"kind": "struct", "tys": [], "fields": [{"name": "x", "ty": r.choice(ints), "rename": None,
+                                                                      "default": False, "skip_none": False}]})
+            out.append(v)
+        r.shuffle(out)
+        d["variants"] = out
+
     def enum(self, nm, avail, byname, defaultable, rec):
         r = self.r
         x = r.random()
@@ -369,8 +406,11 @@ class Gen:
             if self.on("variant-rename", 0.12):
                 v["rename"] = r.choice(VARIANT_RENAMES)
             d["variants"].append(v)
-        if tagging["k"] == "untagged" and r.random() < 0.4:
+        fam = r.random()
+        if tagging["k"] == "untagged" and fam < 0.35:
             self.length_family(d, vnames, avail, byname)
+        elif tagging["k"] == "untagged" and fam < 0.6:
+            self.option_family(d, vnames)
         if tagging["k"] == "untagged" and "untagged-overlap" in self.p.get("exclude", ()):
             # keep only variants that are pairwise distinguishable from the JSON alone (by JSON type, array length /
             # item types, required members).  An untagged enum typify cannot prove exclusive becomes a flattened
